@@ -54,9 +54,12 @@ def client_op(kind, variant, who):
             return {"op": "WriteSubDoc", "coll": COLL, "key": KEY, "path": path, "val": "s2", "casc": "snap"}
         if kind == "incr":
             return {"op": "SubdocInsert", "coll": COLL, "key": KEY, "path": path, "val": "s1", "casc": "zero"}
-    if variant in ("xattr", "xtomb"):
+    if variant in ("xattr", "xtomb", "xres"):
         xn = {"p1": "_s", "p2": "u", "p3": "_t"}[who]
         sets = {xn: {"t": "x2", "mc": True, "mh": False}}
+        if variant == "xres" and kind in ("set", "incr"):
+            # another client re-creates the deleted document (plain write / counter) while the xattr updater resurrects it
+            return client_op(kind, "kv", who)
         if kind == "update":
             return {"op": "WriteUpdateWithXattrs", "coll": COLL, "key": KEY, "cb": "inc", "sets": sets}
         if kind == "casw":
@@ -90,7 +93,7 @@ def to_case(name, scen, prog, sched, variant, mode="mem"):
     if variant == "kvadd":
         # the key starts as a tombstone: Add (and Incr) re-create it
         setup += [{"op": "Delete", "coll": COLL, "key": KEY}]
-    if variant == "xtomb":
+    if variant in ("xtomb", "xres"):
         # the xattr operations race on a tombstone that carries a system xattr
         setup += [{"op": "SetXattrs", "coll": COLL, "key": KEY, "sets": {"_s": {"t": "x1", "mc": False, "mh": False}}},
                   {"op": "Delete", "coll": COLL, "key": KEY}]
@@ -224,7 +227,7 @@ def run(tier, seed, vh, only_paths=None, mode=None):
                 if scen in ("join", "resume") and "set" in sc["prog"].values():
                     variants = variants + ["kvmeta"]
                 if scen in ("race", "race3"):
-                    variants = ["kv", "subdoc", "subabs", "subdel", "xattr", "xtomb", "kvopt", "kvadd", "kvexp", "kvtouch"]
+                    variants = ["kv", "subdoc", "subabs", "subdel", "xattr", "xtomb", "kvopt", "kvadd", "kvexp", "kvtouch", "xres"]
                 for v in variants:
                     if v == "kvopt" and not set(sc["prog"].values()) & {"set", "incr"}:
                         continue
@@ -242,6 +245,9 @@ def run(tier, seed, vh, only_paths=None, mode=None):
                     if v == "kvtouch" and not (set(sc["prog"].values()) & {"set", "get"} and set(sc["prog"].values()) & {"update", "incr", "casw"}):
                         continue
                     if v in ("xattr", "xtomb") and not set(sc["prog"].values()) <= {"update", "casw", "set"}:
+                        continue
+                    if v == "xres" and not (set(sc["prog"].values()) <= {"update", "casw", "set", "incr"} and "update" in sc["prog"].values()
+                                            and set(sc["prog"].values()) & {"set", "incr"}):
                         continue
                     case = to_case("%s-%d-%s" % (scen, i, v), SCENARIOS[scen], sc["prog"], sc["sched"], v)
                     # every other feed case runs with the physical clock standing still, so that consecutive
